@@ -14,7 +14,7 @@ ID = 'C10'
 LEVEL = 'exploration'
 RULE = (
     'cases: random free-energy grids with 2-6 voxels per axis (mostly unequal axes), 0-40 % blocked voxels (energy '
-    'above the threshold), energies from random values or from -kT ln p of a random density; both neighbourhood '
+    'far above, one ulp above or exactly at the threshold; some admissible voxels one ulp below it), energies from random values or from -kT ln p of a random density; both neighbourhood '
     'modes; all five path-finding methods; all start/stop pairs for grids with <= 24 admissible voxels, 3 random '
     'pairs per method otherwise; percolating paths for all 7 direction sets with 1-4 peaks.  Oracle: own heap '
     'Dijkstra / union-find bottleneck over the periodic grid with the neighbourhood of the statement (26 or 6), cost '
@@ -47,9 +47,11 @@ def setup(ctx):
     from gemdat.volume import FreeEnergyVolume
 
     _mon.attach(gp, 'free_energy_graph', label='path.free_energy_graph')
-    _mon.attach(gp, 'optimal_path', label='path.optimal_path')
-    _mon.attach(gp, 'optimal_percolating_path', label='path.optimal_percolating_path')
-    _mon.attach(FreeEnergyVolume, 'optimal_path', label='FreeEnergyVolume.optimal_path')
+    from .. import retain as _rt
+
+    _mon.attach(gp, 'optimal_path', label='path.optimal_path', retain=_rt.pathway)
+    _mon.attach(gp, 'optimal_percolating_path', label='path.optimal_percolating_path', retain=_rt.pathway)
+    _mon.attach(FreeEnergyVolume, 'optimal_path', label='FreeEnergyVolume.optimal_path', retain=_rt.pathway)
     _mon.attach(gp.Pathway, 'wrapped_sites', label='Pathway.wrapped_sites')
     _mon.attach(gp.Pathway, 'frac_sites', label='Pathway.frac_sites')
 
@@ -116,7 +118,17 @@ def run_unit(unit, rng, ctx):
         src = 'density'
     else:
         Fd0 = rng.uniform(0, rng.choice([0.5, 3.0, 12.0, 40.0]), size=shape)
-        Fd0 = np.where(rng.uniform(size=shape) < rng.choice([0.0, 0.2, 0.4]), 1e300, Fd0)
+        # blocked voxels: far above the threshold, EXACTLY at the threshold (1e7: not below it, so blocked), or
+        # one ulp above it; a few admissible voxels sit one ulp below the threshold
+        wall = float(rng.choice([1e300, 1e300, 1e7, float(np.nextafter(1e7, np.inf))]))
+        Fd0 = np.where(rng.uniform(size=shape) < rng.choice([0.0, 0.2, 0.4]), wall, Fd0)
+        if rng.uniform() < 0.25:
+            Fd0 = np.where(rng.uniform(size=shape) < 0.1, float(np.nextafter(1e7, 0)), Fd0)
+            ctx.count('grids_with_voxels_one_ulp_below_the_threshold')
+        ctx.count('grids_with_blocked_voxels_exactly_at_the_threshold', wall == 1e7 and bool(np.any(Fd0 == 1e7)))
+        if rng.integers(3) == 0:
+            Fd0 = np.asfortranarray(Fd0)
+            ctx.count('fortran_ordered_energy_grids')
         F = FreeEnergyVolume(data=Fd0, lattice=Lattice(m))
         src = 'random'
     Fd = np.asarray(F.data)
